@@ -390,7 +390,7 @@ theorem bitfield_saturation_as_coded (v : BitVec 64) (bits : Nat) (h1 : 1 ≤ bi
     subset makes the translator fail, and this list change) -/
 theorem go_arith_translated :
     Go.translated = ["isSignedSumOverflow", "isUnsignedOverflow", "saturateValue", "signExtend", "isPowerOfTwo",
-      "hashToIndex", "sipRound", "getRangeClamp", "lrangeClamp", "ltrimClamp", "addIntOverflowGuard", "fieldAddIntOverflowGuard"] := rfl
+      "hashToIndex", "sipRound", "getRangeClamp", "lrangeClamp", "bitcountClamp", "ltrimClamp", "addIntOverflowGuard", "fieldAddIntOverflowGuard"] := rfl
 
 /-- `signExtend(value, bits)` translated from the Go source on this run: on a field value of width 1..64 it returns the
     two's-complement reading of the field — the model's `toSigned`, which `GET i<w>` and the signed `INCRBY` / `SET`
@@ -407,6 +407,34 @@ theorem bitfield_sign_extend_examples :
 /-- `isPowerOfTwo` as translated: true exactly on the powers of two (the table sizes of the dictionary) -/
 theorem is_power_of_two_as_coded (n : BitVec 32) : Go.isPowerOfTwo n = true ↔ ∃ k, n.toNat = 2 ^ k :=
   go_isPowerOfTwo n
+
+/-- The range arithmetic of BITCOUNT translated from `fnBitCount` on this run (negative indexes from the end, a start
+    beyond the end and an end before the start count nothing, the end clamped onto the last unit): it leaves early
+    exactly when `bitcountBounds` is `none` and otherwise ends with the same first and last unit, for every pair of
+    int64 arguments and every positive length (bytes, or bits in BIT mode). -/
+theorem bitcount_range_as_coded (s e n : BitVec 64) (hn : 0 < n.toInt) :
+    (match Go.bitcountClamp s e n with
+     | (true, _, _) => none
+     | (false, a, z) => some (a.toInt, z.toInt)) = bitcountBounds n.toInt s.toInt e.toInt :=
+  go_bitcountClamp s e n hn
+
+/-- … and `bitcountBounds` is what the model's BITCOUNT counts between (without the recorded deviation D44) -/
+theorem bitcount_model_bounds (c : Ctx) (db : Db) (k b : Bytes) (e : Entry) (s t : Int) (m : Bool)
+    (hq1 : c.q.bitcountClamp = false)
+    (hl : db.live c.now k = some e) (hv : e.val = .str b) (hb : b.isEmpty = false) :
+    (cmdBitCount c db k (some (s, t, m))).reply =
+      match bitcountBounds (if m then (b.length : Int) * 8 else b.length) s t with
+      | none => .int 0
+      | some (a, z) =>
+        if m then vInt ((List.range (z - a + 1).toNat).filter fun j => bitAt b (a.toNat + j)).length
+        else vInt (((b.drop a.toNat).take (z - a + 1).toNat).foldl (fun acc x => acc + popcount8 x) 0) :=
+  cmdBitCount_bounds c db k b e s t m hq1 hl hv hb
+
+/-- non-vacuity: 3 bytes, `BITCOUNT k -2 -1` counts bytes 1..2; `5 9` nothing; `0 100` is clamped to 0..2 -/
+theorem bitcount_range_examples :
+    bitcountBounds 3 (-2) (-1) = some (1, 2) ∧ bitcountBounds 3 5 9 = none ∧ bitcountBounds 3 0 100 = some (0, 2) ∧
+    Go.bitcountClamp (BitVec.ofInt 64 (-2)) (BitVec.ofInt 64 (-1)) 3#64 = (false, 1#64, 2#64) ∧
+    (Go.bitcountClamp 5#64 9#64 3#64).1 = true := by decide
 
 /-- non-vacuity: i8, 100 + 100 overflows, 100 + 27 does not; i64 at the edge -/
 theorem bitfield_signed_overflow_examples :
